@@ -11,14 +11,14 @@ FILES = [
     "lerax/buffer/rollout.py", "lerax/buffer/replay.py", "lerax/buffer/base_buffer.py",
     "lerax/algorithm/ppo.py", "lerax/algorithm/a2c.py", "lerax/algorithm/reinforce.py",
     "lerax/algorithm/dqn.py", "lerax/algorithm/sac.py", "lerax/algorithm/on_policy.py",
-    "lerax/algorithm/off_policy.py", "lerax/algorithm/base_algorithm.py", "lerax/policy/actor_critic/mlp.py", "lerax/utils.py",
+    "lerax/algorithm/off_policy.py", "lerax/algorithm/base_algorithm.py", "lerax/policy/actor_critic/mlp.py", "lerax/utils.py", "lerax/callback/logging/callback.py", "lerax/benchmark/__init__.py",
 ]
 PROPS_OF = {
     "lerax/buffer/rollout.py": ["C03", "C09"], "lerax/buffer/replay.py": ["C06"], "lerax/buffer/base_buffer.py": ["C09", "C06"],
     "lerax/algorithm/ppo.py": ["C08", "C09"], "lerax/algorithm/a2c.py": ["C08"], "lerax/algorithm/reinforce.py": ["C08"],
     "lerax/algorithm/dqn.py": ["C07", "C10"], "lerax/algorithm/sac.py": ["C07", "C10"],
     "lerax/algorithm/on_policy.py": ["C03", "C04", "C10", "C19"], "lerax/algorithm/off_policy.py": ["C05", "C10", "C19"],
-    "lerax/algorithm/base_algorithm.py": ["C10", "C11"], "lerax/policy/actor_critic/mlp.py": ["C04", "C16"], "lerax/utils.py": ["C04", "C18"],
+    "lerax/algorithm/base_algorithm.py": ["C10", "C11"], "lerax/policy/actor_critic/mlp.py": ["C04", "C16"], "lerax/utils.py": ["C04", "C18", "C19"], "lerax/callback/logging/callback.py": ["C19", "C11"], "lerax/benchmark/__init__.py": ["C19"],
 }
 
 
